@@ -50,10 +50,11 @@ SEEDS = [
     '@import "i.css";/*c*/@namespace n1 "urn:n1";@namespace n2 "urn:n2";n1|e1 n2|e2:not(n1|e3){top:0}@media print{n2|m1{top:0}@media tv{n1|m2[n2|a]{left:0}}}',
     '@namespace n1 "urn:n1";@namespace n2 "urn:n1";@namespace "urn:n2";a, n2|b{top:0}',
     '@namespace p "urn:u";@namespace n1 "urn:n1";@media print{p|m1[p|a]{top:0}}n1|e{left:0}',
+    '@namespace Q "urn:n1";@namespace q "urn:n2";Q|e1[Q|a], q|e2, Q|*{top:0}',
 ]
-PREFIXES = ['', 'n1', 'n2', 'p', 'q']
+PREFIXES = ['', 'n1', 'n2', 'p', 'q', 'Q', 'N1']  # (prefixes are case-sensitive: Q and q, N1 and n1 are different prefixes)
 URIS = ['urn:n1', 'urn:n2', 'urn:u', 'urn:d', 'urn:new']
-STYLE_TEXTS = ['x1{top:0}', 'n1|x2{top:0}', 'n2|x3[n1|a]{top:0}', 'p|x4, q|x5{top:0}', '*|x6, |x7{top:0}', 'x8:not(n2|x9){top:0}', 'zz|x{top:0}', 'x[zz|a]{top:0}']
+STYLE_TEXTS = ['Q|x10[Q|a], q|x11{top:0}', 'N1|x12, n1|x13, N1|*{top:0}', 'x1{top:0}', 'n1|x2{top:0}', 'n2|x3[n1|a]{top:0}', 'p|x4, q|x5{top:0}', '*|x6, |x7{top:0}', 'x8:not(n2|x9){top:0}', 'zz|x{top:0}', 'x[zz|a]{top:0}']
 ANY = -1
 
 
@@ -400,7 +401,7 @@ class NsWalk:
             text = STYLE_TEXTS[op[1] % len(STYLE_TEXTS)]
             import re
 
-            need = {p for p in re.findall(r'([a-z0-9]+)\|', text)}
+            need = {p for p in re.findall(r'([A-Za-z0-9]+)\|', text)}
             if need - set(map_before):
                 ctx.count('oracle.undeclared')
                 if outcome == 'ok' and any(text.split('{')[0].replace(' ', '') in r.selectorText.replace(' ', '') for r in style_rules(sheet)):
